@@ -626,6 +626,7 @@ def translated_source_stream(ctx: Ctx, dur_vals: list[int]):
         else:
             ctx.violation("auto-units-raises", f"_auto_units({ms} ms) -> {o}", {"ms": ms, "style": 2, "largest": l, "smallest": s, "auto": True})
     ctx.correspond("_auto_units called directly on whole milliseconds (unit boundaries +-1 ms, seeded)", req, out, translated=True)
+    common.python_operator_stream(ctx)
 
 
 def _oracle_composition(ctx: Ctx, v: datetime, fmt: str, out: str, names):
